@@ -517,6 +517,12 @@ int main(int argc, char** argv)
              "max_iterations >= 128");
     r.assume("origins at which the function or its gradient is not finite are not judged; a direction whose slope "
              "g.d is within 4 eps sum|g_i d_i| of zero is not judged");
+    r.assume("the clauses particular to convex quadratics are judged when the exact minimum along the direction, "
+             "(g0.d)^2 / (2 d'Ad) with d'Ad = (g(x0+d) - g0).d, is more than 1e-10 (|f0| + ||g0|| ||x0||) below f0 (the origin is not "
+             "the minimizer up to rounding)");
+    r.assume("CG_DESCENT (and More-Thuente) reporting success without their conditions on a convex quadratic with "
+             "max_iterations in {1, 2} is counted as an outcome ('not-judged:...'), not as a violation: the "
+             "statement's clause on quadratics is asserted for a working budget (max_iterations >= 128) only");
 
     const auto logger = make_null_logger();
 
@@ -622,6 +628,26 @@ int main(int argc, char** argv)
             return;
         }
 
+        // convex quadratics: phi(t) = f0 + t g0.d + t^2/2 d'Ad with d'Ad = (g(x0 + d) - g0).d; the clauses that are
+        // particular to quadratics are judged when the exact line minimum lies below f0 by more than rounding
+        bool quadratic = false;
+        if (fn.quadratic && kind > 0)
+        {
+            vector_t xd(n), g(n);
+            for (tensor_size_t i = 0; i < n; ++i)
+            {
+                xd(i) = x0(i) + descent(i);
+            }
+            f.vgrad(xd, g);
+            const auto dg0       = dot(o.g, o.d);
+            const auto curvature = dot(to_std(g), o.d) - dg0;
+            quadratic = curvature > 0 && dg0 * dg0 / (2 * curvature) > 1e-10L * (std::fabs(o.f) + norm2(o.g) * norm2(o.x));
+            if (!quadratic)
+            {
+                r.outcome("not-judged:quadratic-clauses:line-minimum-within-rounding-of-the-origin");
+            }
+        }
+
         auto state = solver_state_t{f, x0};
         if (!state.valid())
         {
@@ -683,7 +709,7 @@ int main(int argc, char** argv)
             return;
         }
 
-        const bool must_succeed = fn.quadratic && std::isfinite(t0) && maxit >= 128;
+        const bool must_succeed = quadratic && std::isfinite(t0) && maxit >= 128;
         if (!ok)
         {
             r.outcome(cfg.id + ":failure");
@@ -720,7 +746,7 @@ int main(int argc, char** argv)
                 clean = false;
                 r.violation(cfg.id + ":" + b + regime, one, detail(q, b + " (advertised)"));
             }
-            if (fn.quadratic && cfg.advertised == cond::generic)
+            if (quadratic && cfg.advertised == cond::generic)
             {
                 // More-Thuente / CG_DESCENT: held to their conditions on convex quadratics, with a working budget
                 for (const auto& b : judge_condition(o, q, cfg.on_quadratic))
